@@ -74,7 +74,7 @@ def run_case(case, seed):
     else:
         cfgs, complete = D.enum_configs(els, b['mask_deviation_bound'], b['complete_lattice_cap'])
     for cfg in cfgs:
-        D.apply_config(els, cfg, rep=0)
+        D.apply_config(els, cfg, rep=0, via_data=res['states'] % 2 == 1)
         res['states'] += 1
         res['transitions'] += len(cfg)
         res['evals'] += 1
